@@ -79,7 +79,7 @@ void EpollLoop::runLoop(Mode mode)
 
         for (int i = 0; i < fds; ++i) {
             epoll_event &ev = events.at(i);
-            EpollFdEvent::OnEventCallback(ev.events, ev.data.ptr);
+            EpollFdEvent::OnEventCallback(ev.events, this, ev.data.fd);
         }
 
         //handleRunInLoopFunc();
@@ -114,13 +114,23 @@ EpollFdSharedData* EpollLoop::refFdSharedData(int fd)
 
         ::memset(&fd_shared_data->ev, 0, sizeof(fd_shared_data->ev));
         fd_shared_data->fd = fd;
-        fd_shared_data->ev.data.ptr = static_cast<void *>(fd_shared_data);
+        //! 内核中只保存fd，而不是指针：分发时该共享数据可能已被前面的回调释放（其内存块甚至已被复用）
+        fd_shared_data->ev.data.fd = fd;
 
         fd_data_map_.insert(std::make_pair(fd, fd_shared_data));
     }
 
     ++fd_shared_data->ref;
     return fd_shared_data;
+}
+
+EpollFdSharedData* EpollLoop::findFdSharedData(int fd) const
+{
+    auto it = fd_data_map_.find(fd);
+    if (it == fd_data_map_.end())
+        return nullptr;
+
+    return it->second;
 }
 
 void EpollLoop::unrefFdSharedData(int fd)
